@@ -46,7 +46,7 @@ def strategy_(draw, tier):
     if draw(st.sampled_from(range(4))) == 0:
         y, m, d = draw(st.sampled_from(DAYS))
         return {"tz": tz, "rel": draw(st.sampled_from(["today", "yesterday", "-1", "-7", "'+1'", "'-1'", "-30", "'+7'", "-365", "-999", "-1000",
-                                                        "-1001", "'-3000'", "-10000", "'+1000'", "'+4000'"])),
+                                                        "-1001", "'-3000'", "-10000", "'+1000'", "'+4000'", "+1", "+7", "+30"])),
                 "clock_day": [y, m, d], "clock_hms": draw(st.sampled_from([[12, 0, 0], [0, 0, 0], [23, 59, 59], [3, 30, 0]])),
                 "split": draw(st.booleans())}
     y, m, d = draw(st.sampled_from(DAYS))
